@@ -39,9 +39,11 @@ var hookSpecs = []hookSpec{
 	{"internal/util/util.go", "", []string{"RunParallel"}},
 	{"internal/dcs/zk.go", "", []string{"retry"}},
 	{"internal/app/util.go", "", []string{"getNodeStatesInParallel", "findMostRecentNodeAndDetectSplitbrain"}},
-	{"internal/app/replication.go", "App", []string{"optimizationPhase"}},
+	{"internal/app/replication.go", "App", []string{"optimizationPhase", "startSyncerGoroutine"}},
 	{"internal/app/timing_tracker.go", "App", []string{"logTiming"}},
-	{"internal/app/app.go", "App", []string{"getLocalDaemonState", "updateActiveNodes", "performSwitchover", "baseContext"}},
+	{"internal/app/app.go", "App", []string{"getLocalDaemonState", "updateActiveNodes", "performSwitchover", "baseContext",
+		// cut points for whole-iteration harnesses (C05): the manager's view and the repair callees
+		"getClusterStateFromDB", "repairOfflineMode", "repairCluster"}},
 	{"internal/app/cli_util.go", "App", []string{"cliInitApp"}},
 	{"internal/util/user.go", "", []string{"GuessWhoRunning"}},
 	{"internal/app/node_state/node_state.go", "DiskState", []string{"Usage"}},
@@ -54,6 +56,7 @@ var callRewrites = map[string]string{
 	"time.Now":        "verifnd.Now",
 	"time.Since":      "verifnd.Since",
 	"time.Sleep":      "verifnd.Sleep",
+	"time.NewTicker":  "verifnd.NewTicker",
 	"time.AfterFunc":  "verifnd.AfterFunc",
 	"os.WriteFile":    "verifnd.OsWriteFile",
 	"os.Stat":         "verifnd.OsStat",
